@@ -34,9 +34,16 @@ Fixpoint lookup2 (a e : bytes) (t : list (bytes * bytes * N)) : option N :=
   end.
 
 (* sanitizationContextForAttrVal: None = error *)
+(* every value of the rel attribute is allow-listed, and there is one
+   (fix: allow a URL in a link element's href only if every rel value is allow-listed) *)
+Definition all_url_rel_vals (link_rel : bytes) : bool :=
+  match fields link_rel with
+  | [] => false
+  | vs => forallb (fun v => mem_bytes v P_urlLinkRelVals) vs
+  end.
+
 Definition sc_for_attr_val (element attr link_rel : bytes) : option N :=
-  if bytes_eqb element (B "link") && bytes_eqb attr (B "href") &&
-     existsb (fun v => mem_bytes v P_urlLinkRelVals) (fields link_rel)
+  if bytes_eqb element (B "link") && bytes_eqb attr (B "href") && all_url_rel_vals link_rel
   then Some SC_TRUOrURL
   else if go_match_bytes G_dataAttributeNamePattern attr then Some SC_None
   else match lookup2 attr element P_elementSpecific with
